@@ -154,6 +154,9 @@ class TreeCheck:
                 self._points.add((p.get("role"), p.get("thr"), tuple(p["pt"])))
             if facts.outcome == "hard_timeout":
                 V.inconc("hard_timeout_without_stall_witness")
+                if V.inconclusive.get("hard_timeout_without_stall_witness", 0) <= 2:
+                    # kept for diagnosis only (never a verdict): something kept writing events until the hard limit
+                    common.save_replay(self.prop, "inconclusive-hard-timeout-%d" % V.inconclusive["hard_timeout_without_stall_witness"], copy_dir=hist.dir)
                 return facts
             viols = self.oracle(case, facts)
             if planned and not fired:
